@@ -26,16 +26,24 @@ THEOREMS = ["TWellFormed", "TParentChain", "TParentOfType", "TChildren", "TNoRef
 # deviation clause -> theorem it must break (rule 6: the module is not vacuous)
 DEV_BREAKS = {"FollowRefs": ("TChildren", "TNoRefs"), "AlwaysChildrenFirst": ("TChildren",),
               "ParentOfTypeFromSelf": ("TParentOfType",), "GetModelThroughNoneParent": ("TParentChain",)}
-USER_CLASSES = ["Pkg", "Leaf"]
+# variant -> rules that get a user class
+USER_CLASSES = {"plain": [], "user": ["Pkg", "PkgLeaf"], "userparent": ["Pkg", "PkgSubPkg", "PkgLeaf"]}
 
 
 # ------------------------------------------------------------------ real side
 
-def _user_classes(names, store_parent):
+def _user_classes(mm, names, store_parent):
     """User classes for the given rules.  store_parent=False: __init__ keeps what textX passes;
-    store_parent=True: the documented pattern `self.parent = parent` with a default for the root."""
+    store_parent=True: the documented pattern `self.parent = parent` with a default for the root.
+    The classes are container-like: an instance is falsy when its list attribute is empty (__len__), or,
+    for a class without one, when it holds no reference (__bool__) -- while it may well contain or be
+    contained in other objects."""
     out = []
     for n in names:
+        attrs = nav.class_of(mm, n)["attrs"]
+        lists = [a["name"] for a in attrs if a["cont"] and a["many"]]
+        refs = [a["name"] for a in attrs if not a["cont"]]
+        d = {}
         if store_parent:
             def init(self, parent=None, **kw):
                 self.parent = parent
@@ -45,7 +53,12 @@ def _user_classes(names, store_parent):
             def init(self, **kw):
                 for k, v in kw.items():
                     setattr(self, k, v)
-        out.append(type(n, (), {"__init__": init}))
+        d["__init__"] = init
+        if lists:
+            d["__len__"] = lambda self, a=lists[-1]: len(getattr(self, a))
+        else:
+            d["__bool__"] = lambda self, refs=refs: any(getattr(self, a, None) is not None for a in refs)
+        out.append(type(n, (), d))
     return out
 
 
@@ -57,8 +70,8 @@ class Real:
         self.mm = mm
         self.grammar = nav.grammar_of(mm)
         self.metamodels = {}
-        for variant in ("plain", "user", "userparent"):
-            classes = [] if variant == "plain" else _user_classes(USER_CLASSES, variant == "userparent")
+        for variant, names in USER_CLASSES.items():
+            classes = _user_classes(mm, names, variant == "userparent")
             m = metamodel_from_str(self.grammar, classes=classes)
             nav.check_metamodel(mm, m)
             self.metamodels[variant] = m
@@ -290,9 +303,11 @@ def run(rep):
         "an object for which should_follow is false is neither returned nor descended into; the start object is "
         "always visited (DESIGN Appendix F); should_follow is total (textX also calls it on attribute values "
         "that are not objects, e.g. the name string)",
-        "user classes: rules Pkg (also the root rule) and Leaf; the well-behaved variant keeps exactly the "
-        "attributes textX passes to __init__; the variant that stores `self.parent = parent` (None for the root) "
-        "is a separate small family",
+        "user classes: variant `user` (rules Pkg -- also the root rule -- and PkgLeaf) keeps exactly the attributes "
+        "textX passes to __init__; variant `userparent` (all three rules) stores `self.parent = parent`, None for "
+        "the root; the classes are container-like (__len__ / __bool__), so instances can be falsy",
+        "carrier: class names are prefixes/suffixes of one another (Pkg, PkgSubPkg, PkgLeaf); Pkg.elems is assigned "
+        "at three places with different rules, so textX types it OBJECT",
         "references are resolved by the default provider; all names in this family are unique",
     ]
     findings = common.open_findings(PID)
@@ -331,15 +346,14 @@ def run(rep):
     for i, g in enumerate(chosen):
         qs = _class_queries(mm, g)
         items.append((g, qs, "plain"))
-        items.append((g, qs, "user"))
-    # the small family for the documented-pattern user class (root stores parent=None)
-    fam = [g for g in uniq if nav.n_objs(g) <= 3][:60]
-    for g in fam:
-        items.append((g, _class_queries(mm, g), "userparent"))
+        # user classes (instances may be falsy): keeping the attributes textX passes / storing `parent` (None at the root)
+        for v in (("user", "userparent") if not quick else (("user", "userparent")[i % 2],)):
+            items.append((g, qs, v))
     _conform(rep, real, mm, items, devs, "enumerated")
     rep.exhaustive = len(chosen) == len(uniq)
-    rep.bounds["enumerated"] = dict(trees=len(uniq), replayed=len(chosen), variants=["plain", "user"],
-                                    userparent_family=len(fam), queries_per_tree="66 + 3 per inner object")
+    rep.bounds["enumerated"] = dict(trees=len(uniq), replayed=len(chosen),
+                                    variants=["plain", "user", "userparent"] if not quick else ["plain", "user|userparent"],
+                                    queries_per_tree="66 + 3 per inner object")
 
     # (I->S) bigger seeded-random models
     count = 120 if quick else 1500
@@ -349,7 +363,7 @@ def run(rep):
         g = nav.renumber(g, order_rng=rng)
         _add_random_refs(rng, mm, g)
         qs = _random_queries(rng, mm, g, 24)
-        items.append((g, qs, rng.choice(("plain", "user"))))
+        items.append((g, qs, rng.choice(("plain", "user", "userparent"))))
     _conform(rep, real, mm, items, devs, "random")
     rep.bounds["random"] = dict(models=count, objects="8..40", queries_per_model=24)
 
